@@ -94,6 +94,25 @@ def schema_for(spec):
     return schema
 
 
+def make_reader(spec):
+    """A second declarer, listed after the writers, that names only the
+    default of every variable (as a process that merely reads it does): the
+    declared updaters and units must survive this second configuration."""
+    from vivarium.core.process import Process
+
+    class Reader(Process):
+        def ports_schema(self):
+            schema = {}
+            for var in spec['vars']:
+                put(schema, var['path'], {
+                    '_default': mk(var, var['init'], var.get('init_unit'))})
+            return {'s': schema}
+
+        def next_update(self, timestep, states):
+            return {}
+    return Reader({'name': 'zz_reader'})
+
+
 def update_value(var, entry):
     v = mk(var, entry['v'], entry.get('unit'))
     if entry.get('override'):
@@ -161,6 +180,8 @@ def classify(spec, res):
                 res.label('override')
             if entry.get('unit'):
                 res.label('unit.converted')
+    if spec.get('reader'):
+        res.label('second_declarer_without_updater')
     if any(v.get('init_unit') for v in spec['vars']):
         res.label('unit.initial_value_in_other_unit')
     if any(n >= 2 for n in hits.values()):
@@ -187,12 +208,16 @@ def run_case(spec):
         if spec['delivery'] == 'engine':
             procs = {'p%d' % i: make_process(spec, i)
                      for i in range(len(spec['batch']))}
+            if spec.get('reader'):
+                procs['zz_reader'] = make_reader(spec)
             topo = {name: {'s': ('s',)} for name in procs}
             eng = Engine(processes=procs, topology=topo, display_info=False)
             store = eng.state
         else:
             procs = {'p0': make_process(spec, 0)}
-            store = generate_state(procs, {'p0': {'s': ('s',)}}, {})
+            if spec.get('reader'):
+                procs['zz_reader'] = make_reader(spec)
+            store = generate_state(procs, {n: {'s': ('s',)} for n in procs}, {})
         nodes = {v['name']: store.get_path(('s',) + tuple(v['path']))
                  for v in spec['vars']}
         before = {n: (id(node.value), copy.deepcopy(node.value))
@@ -404,7 +429,8 @@ def strategy_(draw, tier):
         vars_.append(var)
     delivery = draw(st.sampled_from(['direct', 'multi', 'engine']))
     return {'delivery': delivery, 'vars': vars_, 'batch': batch,
-            'empty_struct': draw(st.booleans())}
+            'empty_struct': draw(st.booleans()),
+            'reader': draw(st.integers(0, 2)) == 0}
 
 
 def strategy(tier):
